@@ -133,6 +133,19 @@ def _expand_sources(fnode, out, var, _depth):
                 if node is not l.node:
                     expanded.append(Layer('source', norm(node), node))
                     continue
+                # a mapping that is never assigned here (a parameter such as **kwargs) but is given defaults / entries
+                # in place before it is copied: its in-place layers travel with it
+                if isinstance(node, ast.Name) and not any(isinstance(st, ast.Assign) and any(norm(t) == node.id for t in st.targets)
+                                                          for st in all_stmts):
+                    try:
+                        sub = layers_of_var(fnode, node.id, _depth + 1)
+                    except AnalysisError:
+                        sub = []
+                    if sub:
+                        expanded.extend([x for x in sub if x.below])
+                        expanded.append(l)
+                        expanded.extend([x for x in sub if not x.below])
+                        continue
             expanded.append(l)
         out = expanded
     return out
